@@ -390,13 +390,20 @@ func (f *file) ReadDir(n int) ([]hackpadfs.DirEntry, error) {
 	if err != nil {
 		return nil, &hackpadfs.PathError{Op: "readdir", Path: f.path, Err: err}
 	}
-	start, end := f.offset, f.offset+int64(n)
-	if n <= 0 {
-		start, end = 0, int64(len(dirNames))
-	} else if end > int64(len(dirNames)) {
-		end = int64(len(dirNames))
+	total := int64(len(dirNames))
+	start := f.offset
+	if start > total {
+		start = total
 	}
-	offsetAdd := end - start
+	end := total // n <= 0 reads all remaining entries
+	if n > 0 {
+		if start == total {
+			return nil, io.EOF
+		}
+		if start+int64(n) < total {
+			end = start + int64(n)
+		}
+	}
 
 	var entries []hackpadfs.DirEntry
 	for _, name := range dirNames[start:end] {
@@ -406,7 +413,7 @@ func (f *file) ReadDir(n int) ([]hackpadfs.DirEntry, error) {
 		}
 		entries = append(entries, entry)
 	}
-	f.offset += offsetAdd
+	f.offset = end
 	return entries, nil
 }
 
